@@ -553,6 +553,64 @@ func init() {
 		g, err := wkb.Unmarshal(a[0].b, a[1].wkbOpts...)
 		return []any{g, err}
 	})
+	// ---- centroid calculators used directly (one calculator per call, shared arguments)
+	reg("xy.CentroidCalculators", []string{"g:Polygon", "g:LineString", "g:Point"}, func(c *Call, a []*item) any {
+		pg, ls, pt := a[0].g.(*geom.Polygon), a[1].g.(*geom.LineString), a[2].g.(*geom.Point)
+		ac := xy.NewAreaCentroidCalculator(pg.Layout())
+		ac.AddPolygon(pg)
+		lc := xy.NewLineCentroidCalculator(pg.Layout())
+		lc.AddPolygon(pg)
+		if ls.Layout() == pg.Layout() {
+			lc.AddLine(ls)
+		}
+		pc := xy.NewPointCentroidCalculator()
+		if !pt.Empty() {
+			pc.AddPoint(pt)
+			pc.AddCoord(pt.Coords())
+		}
+		return []any{ac.GetCentroid(), lc.GetCentroid(), pc.GetCentroid()}
+	})
+	reg("kml.EncodeTyped", []string{"g"}, func(c *Call, a []*item) any {
+		switch g := a[0].g.(type) {
+		case *geom.Point:
+			return xmlOf(gkml.EncodePoint(g), nil)
+		case *geom.LineString:
+			return xmlOf(gkml.EncodeLineString(g), nil)
+		case *geom.LinearRing:
+			return xmlOf(gkml.EncodeLinearRing(g), nil)
+		case *geom.Polygon:
+			return xmlOf(gkml.EncodePolygon(g), nil)
+		case *geom.MultiPoint:
+			return xmlOf(gkml.EncodeMultiPoint(g), nil)
+		case *geom.MultiLineString:
+			return xmlOf(gkml.EncodeMultiLineString(g), nil)
+		case *geom.MultiPolygon:
+			return xmlOf(gkml.EncodeMultiPolygon(g), nil)
+		case *geom.GeometryCollection:
+			return xmlOf(gkml.EncodeGeometryCollection(g))
+		}
+		return nil
+	})
+	reg("geojson.Geometry.Decode", []string{"j"}, func(c *Call, a []*item) any {
+		var gg geojson.Geometry
+		if err := json.Unmarshal(a[0].b, &gg); err != nil {
+			return err
+		}
+		g, err := gg.Decode()
+		return []any{g, err}
+	})
+	reg("geojson.Marshal/CRS", []string{"g"}, func(c *Call, a []*item) any {
+		crs := &geojson.CRS{Type: "name", Properties: map[string]interface{}{"name": "urn:ogc:def:crs:OGC:1.3:CRS84"}}
+		b, err := geojson.Marshal(a[0].g, geojson.EncodeGeometryWithCRS(crs), geojson.EncodeGeometryWithBBox())
+		return []any{string(b), err}
+	})
+	reg("igc.Read+Errors", []string{"i"}, func(c *Call, a []*item) any {
+		_, err := igc.Read(bytes.NewReader(a[0].b))
+		if err == nil {
+			return "no-errors"
+		}
+		return err.Error()
+	})
 	reg("kml.Encode", []string{"g"}, func(c *Call, a []*item) any { return xmlOf(gkml.Encode(a[0].g)) })
 	reg("igc.Read", []string{"i"}, func(c *Call, a []*item) any {
 		t, err := igc.Read(bytes.NewReader(a[0].b))
